@@ -198,3 +198,42 @@ package dnsmsg
 //@   ensures custom-ip-mode: isptr(c.blockingMode, BlockingModeCustomIP) && req.Question[0].Qtype == 1 && len(asptr(c.blockingMode, BlockingModeCustomIP).IPv4) > 0 &&
 //@             allV4(asptr(c.blockingMode, BlockingModeCustomIP).IPv4) ==> err == nil && msg.Rcode == 0 && len(msg.Answer) == len(asptr(c.blockingMode, BlockingModeCustomIP).IPv4)
 //@   ensures err == nil ==> msg != nil && fresh(msg)
+
+// ---------------------------------------------------------------------------
+// C07: recycled objects never carry data of their previous use into a new
+// message, a clone shares no mutable object with its source, and neither
+// cloning nor releasing writes to a message that is still in use.
+//
+// pooled[r]: the object at reference r is inside one of the cloner's pools
+// (declared with the pool contracts); live objects are not pooled.
+
+//@ immutable Cloner.*, optCloner.*
+
+// Pool well-formedness: only existing objects are pooled.
+//@ pred PW() = forall x int :: pooled[x] ==> 0 < x && allocated(toptr(x, dns.Msg))
+//@ pred CL(c *Cloner) = c != nil && c.msg != nil && c.a != nil && c.aaaa != nil && c.cname != nil && c.mx != nil && c.ptr != nil && c.srv != nil &&
+//@        c.txt != nil && c.soa != nil && c.https != nil && c.opt != nil && c.opt.rr != nil && c.opt.cookie != nil && c.opt.ede != nil && c.opt.subnet != nil && ref(c.stat) != 0
+
+// A recycled OPT record starts without options.
+//@ func newOPT
+//@   property C07
+//@   requires (c == nil || CL(c)) && PW()
+//@   modifies pooled, dns.OPT.Option, dns.OPT.Hdr
+//@   ensures opt != nil && (fresh(opt) || old(pooled[opt])) && !pooled[opt]
+//@   ensures starts-without-options: len(opt.Option) == 0
+//@   ensures opt.Hdr.Name == "." && opt.Hdr.Rrtype == 41
+//@   ensures live-records-untouched: forall o *dns.OPT :: allocated(o) && !fresh(o) && !old(pooled[o]) ==> o.Option == old(o.Option) && o.Hdr == old(o.Hdr)
+
+//@ func newEDNS0EDE
+//@   property C07
+//@   requires (c == nil || CL(c)) && PW()
+//@   modifies pooled, dns.EDNS0_EDE.*
+//@   ensures opt != nil && (fresh(opt) || old(pooled[opt])) && !pooled[opt] && opt.InfoCode == infoCode && opt.ExtraText == extraText
+//@   ensures live-options-untouched: forall o *dns.EDNS0_EDE :: allocated(o) && !fresh(o) && !old(pooled[o]) ==> o.InfoCode == old(o.InfoCode) && o.ExtraText == old(o.ExtraText)
+
+//@ func newCNAME
+//@   property C07
+//@   requires (c == nil || CL(c)) && PW()
+//@   modifies pooled, dns.CNAME.Target
+//@   ensures rr != nil && (fresh(rr) || old(pooled[rr])) && !pooled[rr] && rr.Target == target
+//@   ensures forall o *dns.CNAME :: allocated(o) && !fresh(o) && !old(pooled[o]) ==> o.Target == old(o.Target)
